@@ -3,11 +3,13 @@ C09: the ARRAY-AWARE nesting discipline of a token list — hypothesis of
 `Props.C09.eval_no_panic` — as a computable checker.  It is what a tokenizer with a bracket
 stack (efp) guarantees:
   * function calls, parentheses and array constants are properly nested;
-  * an ARRAYROW start occurs only directly inside an array constant that has no open row
-    (efp emits ARRAY+ARRAYROW for `{` and Argument+ARRAYROW for `;`);
+  * an ARRAYROW start directly inside an array constant that has no open row opens its row;
+    anywhere else it is an ordinary function start (efp emits one for every `;` and for a
+    function called ARRAYROW); the one shape not accepted is a row that would open underneath
+    a parenthesis inside an array constant whose row was closed by a stray `)`;
   * a Function Stop closes the innermost open function call, array row or array constant
     (with nothing open it is tolerated: efp emits an unmatched `)` that way);
-  * an Argument separator never sits directly inside a parenthesis that is inside a function.
+  * an Argument separator may sit anywhere (directly inside a parenthesis it separates nothing).
 Core Lean only: the driver evaluates it on every `ev` line and the harness compares it with
 its own Go implementation.
 -/
@@ -39,6 +41,14 @@ def FrA.isA : FrA → Bool
   | .A _ => true
   | _ => false
 
+/-- the array constant a token at the top of these frames belongs to (`array()` of calc.go):
+the innermost array frame not separated from the top by a function frame; its row flag -/
+def scanA : List FrA → Option Bool
+  | [] => none
+  | .F :: _ => none
+  | .P :: fs => scanA fs
+  | .A r :: _ => some r
+
 /-- one token against the frames.  `inner` = frames opened since the outermost open function
 call (innermost first; its last element is that call), `outer` = frames open outside any
 function call (parentheses and array constants). -/
@@ -50,13 +60,19 @@ def nestStepA (inner outer : List FrA) (t : Tok) : Option (List FrA × List FrA)
     | [] => some ([], .A false :: outer)
     | _ :: _ => some (.A false :: inner, outer)
   | .rstart =>
-    match inner with
-    | .A false :: r => some (.A true :: r, outer)
-    | [] =>
-      match outer with
-      | .A false :: o => some ([], .A true :: o)
+    -- a row of the array constant the token belongs to, if that constant has no open row
+    -- (`scanA`); otherwise an ordinary function start (repository fix d5de215).  A row that
+    -- would open underneath a parenthesis is not representable in these frames: rejected.
+    match scanA (inner ++ outer) with
+    | some false =>
+      match inner with
+      | .A false :: r => some (.A true :: r, outer)
+      | [] =>
+        match outer with
+        | .A false :: o => some ([], .A true :: o)
+        | _ => none
       | _ => none
-    | _ => none
+    | _ => some (.F :: inner, outer)
   | .fstop =>
     match inner with
     | .F :: r => some (r, outer)
@@ -70,10 +86,7 @@ def nestStepA (inner outer : List FrA) (t : Tok) : Option (List FrA × List FrA)
       | .A false :: o => some ([], o)
       | .P :: _ => if outer.any FrA.isA then none else some ([], outer)
       | .F :: _ => none
-  | .arg =>
-    match inner with
-    | .P :: _ => none
-    | _ => some (inner, outer)
+  | .arg => some (inner, outer)   -- directly inside a parenthesis it separates nothing (repository fix cdb1ef6)
   | .lparen =>
     match inner with
     | [] => some ([], .P :: outer)
